@@ -17,6 +17,12 @@ MutFacts.lean:
                      ('reraise-unless-missing' / 'reraise-unless-ignore_missing' / 'other')
   finalOpsAllowed  : the string of op chars accepted by Assign.__init__ / Delete.__init__
   applyForEachShape: recognised shape of _apply_for_each ('flatten layers-1 then iterate' or 'other')
+  starsShape       : recognised shape of TType.__stars__ ('count x/X over the operator slots
+                     __ops__[1::2]' or 'other')
+  specSelfWrites   : (class, method, attribute) for every store into / mutating call on an
+                     attribute of `self` in Assign / Delete outside __init__ (spec objects must be
+                     immutable at evaluation time: expected empty)
+  specInitAttrs    : (class, attribute) assigned in Assign.__init__ / Delete.__init__
 """
 import ast
 
@@ -176,6 +182,68 @@ def extract(ctx):
     else:
         P.add('_apply_for_each not found')
 
+    # TType.__stars__
+    stars = 'other'
+    tt = find_def(core, 'TType')
+    st_fn = None
+    if tt is not None:
+        for n in tt.body:
+            if isinstance(n, ast.FunctionDef) and n.name == '__stars__':
+                st_fn = n
+    if st_fn is None:
+        P.add('TType.__stars__ not found')
+    else:
+        body = [b for b in st_fn.body if not (isinstance(b, ast.Expr) and isinstance(b.value, ast.Constant))]
+        got = '\n'.join(_src(b) for b in body)
+        if got == "t_ops = self.__ops__[1::2]\nreturn t_ops.count('x') + t_ops.count('X')":
+            stars = 'count x/X over the operator slots __ops__[1::2]'
+
+    # stores into self.* outside __init__ / attributes set by __init__
+    MUT = {'append', 'extend', 'insert', 'pop', 'remove', 'clear', 'update', 'add', 'discard',
+           'setdefault', 'popitem', 'sort', 'reverse', '__setitem__', '__delitem__'}
+
+    def self_attr(node):
+        """name of the attribute of `self` a store target / call receiver goes through, else None"""
+        while isinstance(node, (ast.Subscript, ast.Attribute)):
+            if isinstance(node, ast.Attribute) and isinstance(node.value, ast.Name) and node.value.id == 'self':
+                return node.attr
+            node = node.value
+        return None
+
+    self_writes, init_attrs = [], []
+    for cname in ('Assign', 'Delete'):
+        cdef = find_def(mut, cname)
+        if cdef is None:
+            P.add('class %s not found' % cname)
+            continue
+        for fn in cdef.body:
+            if not isinstance(fn, ast.FunctionDef):
+                continue
+            for node in ast.walk(fn):
+                targets = []
+                if isinstance(node, ast.Assign):
+                    targets = node.targets
+                elif isinstance(node, (ast.AugAssign, ast.AnnAssign)):
+                    targets = [node.target]
+                elif isinstance(node, ast.Delete):
+                    targets = node.targets
+                flat = []
+                for t in targets:
+                    flat += list(t.elts) if isinstance(t, (ast.Tuple, ast.List)) else [t]
+                for t in flat:
+                    a = self_attr(t)
+                    if a is not None:
+                        if fn.name == '__init__':
+                            if (cname, a) not in init_attrs:
+                                init_attrs.append((cname, a))
+                        else:
+                            self_writes.append((cname, fn.name, a))
+                if (isinstance(node, ast.Call) and isinstance(node.func, ast.Attribute)
+                        and node.func.attr in MUT and fn.name != '__init__'):
+                    a = self_attr(node.func.value)
+                    if a is not None:
+                        self_writes.append((cname, fn.name, a))
+
     T4 = 'List (String × String × List String × String)'
     defs = [
         ('assignOpBranches', T4, a_br),
@@ -185,6 +253,9 @@ def extract(ctx):
         ('deleteGlomitCatch', 'List String × String', (d_catch[0], d_catch[1])),
         ('finalOpsAllowed', 'List (String × String)', final_ops),
         ('applyForEachShape', 'String', shape),
+        ('starsShape', 'String', stars),
+        ('specSelfWrites', 'List (String × String × String)', self_writes),
+        ('specInitAttrs', 'List (String × String)', init_attrs),
     ]
     return [('MutFacts',
              'branches of _assign_op and Delete._del_one with the exception classes each catches; '
